@@ -52,3 +52,7 @@ def run(ctx):
         common.t2_jacobi(ctx)
     else:
         common.t3_shared_cache(ctx)
+
+
+def evidence_extra(pm):
+    return {f"{NAME}_small_pool_order_coverage": common.order_coverage(pm)}
